@@ -19,12 +19,14 @@ ENTRY = dict(
              "extension and the entry of uconn.Extensions; key pairs modelled by generation numbers",
              "after Handshake only Handshake and the setters are documented calls (HandshakeState is replaced by the handshake)",
              "HelloGolang is outside the wire/forbidden theorems (known finding golang-session-setter-ignored)"],
-    level_text="Proof, for histories of any length and any ticket/identity bytes, that on the model of UConn + sessionController (with the "
-               "apply-preset-once fix) every documented call order runs without an assertion panic, keeps the key-share private keys that "
-               "belong to the shares in the hello, puts an injected initialized ticket / PSK identity into the marshaled hello and HandshakeState "
-               "unchanged (or fails with the 'specification doesn't contain one' error, never silently), and that every forbidden setter call "
-               "returns the 'session is disabled' error or panics with a documented message. Partial: cryptography, binder patching, the rest "
-               "of the ClientHello and the network are not modelled; resumption (DidResume on both sides) and the wire bytes are observed by "
-               "the runner on real handshakes against loopback servers.",
+    level_text="Proof on the model of UConn + sessionController (with the apply-preset-once fix). HelloGolang: for histories of any "
+               "length, no assertion panic and the key share keeps its private key (invariant). Mimicking ClientHelloIDs: BOUNDED - every "
+               "history of at most 4 calls over a 12-call alphabet in every parrot-shaped world (exhaustive sweep inside Coq, bound stated "
+               "in each theorem): no assertion panic for documented orders, key-share private keys kept (incl. "
+               "BuildHandshakeStateWithoutSession then BuildHandshakeState), an injected initialized ticket / PSK identity is what the "
+               "marshaled hello and HandshakeState hold, forbidden setter calls return 'session is disabled' or panic with a documented "
+               "message. The unbounded invariant proof for the mimicking IDs is only partly done (setters; not the builds/Handshake). "
+               "Partial also in that cryptography, binder patching, the rest of the ClientHello and the network are not modelled; "
+               "resumption (DidResume on both sides) and the wire bytes are observed by the runner on real loopback handshakes.",
     runner_timeout=1200,
 )
